@@ -1581,9 +1581,9 @@ impl<'t> Cloner<'t> {
                 ValueRepr::Byte(i) => Ok(ValueRepr::Byte(*i)),
                 Int(i) => Ok(Int(*i)),
                 Float(f) => Ok(Float(*f)),
-                ValueRepr::Userdata(userdata) => userdata
-                    .deep_clone(self)
-                    .map(|v| ValueRepr::Userdata(v.unrooted())),
+                ValueRepr::Userdata(userdata) => self
+                    .deep_clone_userdata(userdata)
+                    .map(ValueRepr::Userdata),
                 ValueRepr::Thread(_) => {
                     Err(Error::Message("Threads cannot be deep cloned yet".into()))
                 }
@@ -1666,7 +1666,18 @@ impl<'t> Cloner<'t> {
         &mut self,
         ptr: &GcPtr<Box<dyn Userdata>>,
     ) -> Result<GcPtr<Box<dyn Userdata>>> {
-        unsafe { Ok(ptr.deep_clone(self)?.unrooted()) }
+        unsafe {
+            // A userdata value (a lazy value, a reference) reachable through several paths must
+            // stay one value in the clone
+            let key = &**ptr as *const Box<dyn Userdata> as *const ();
+            if let Some(ValueRepr::Userdata(cloned)) = self.visited.get(&key) {
+                return Ok(cloned.clone_unrooted());
+            }
+            let cloned = ptr.deep_clone(self)?.unrooted();
+            self.visited
+                .insert(key, ValueRepr::Userdata(cloned.clone_unrooted()));
+            Ok(cloned)
+        }
     }
 
     unsafe fn deep_clone_array(&mut self, array: &GcPtr<ValueArray>) -> Result<GcPtr<ValueArray>> {
